@@ -166,7 +166,8 @@ def work(spec):
             part["stats"]["nj-range"] += 1
             continue
         case = {"mode": "step", "main": main, "files": files,
-                "opts": [("budget", 400000), ("maxstops", len(interp.events) + 5 if status == "done" else 500), ("program", 0)]}
+                "opts": [("budget", 400000), ("maxstops", len(interp.events) + 5 if status == "done" else 500), ("program", 0),
+                         ("disasm", 1 if len(items) % 3 == 0 else 0)]}
         items.append((files, main, kind, f, status, interp, case))
     outs, _ = common.run_batch([it[-1] for it in items])
     for (files, main, kind, f, status, interp, case), r_ in zip(items, outs):
